@@ -8,7 +8,7 @@ declare -A MAP=(
  [revert-fix-Dd-restored-pause-channel]="C11" [revert-fix-De-restored-empty-rollout-lb]="C11" [revert-fix-Df-dispose-on-conflict]="C17 C06"
  [revert-fix-Dgh-atomic-snapshot]="C12" [revert-fix-Di-strip-rawpath]="C13" [revert-fix-Dj-disable-compression]="C13"
  [revert-fix-Dk-subpath-certmanager]="C11" [revert-fix-Dl-probe-during-drain]="C09" [revert-fix-Dn-tls-without-host]="C20"
- [revert-fix-Do-rollout-target-options]="C11" [revert-fix-Dp-request-buffer-close]="C14" [revert-fix-Dq-buffered-informational-status]="C13" [revert-fix-Ds-ipv6-host-with-port]="C04" [revert-fix-Dt-first-deploys-pause-state]="C08" [revert-fix-Dr1-pausecontroller-marshal]="C18"
+ [revert-fix-Do-rollout-target-options]="C11" [revert-fix-Dp-request-buffer-close]="C14" [revert-fix-Dq-buffered-informational-status]="C13" [revert-fix-Ds-ipv6-host-with-port]="C04" [revert-fix-Dt-first-deploys-pause-state]="C08" [revert-fix-Dv-held-request-release-outcome]="C07 C08" [revert-fix-Dr1-pausecontroller-marshal]="C18"
  [revert-fix-Dr2-4-service-accessors]="C18" [revert-fix-Dr5-hijacked-atomic]="C18" [revert-fix-Dr7-log-header-copy]="C18" [revert-fix-Dm-install-under-lock]="C17" )
 out=mutants/RESULTS.tsv; : > $out
 for f in mutants/*.diff; do
